@@ -120,19 +120,48 @@ def bystander(tag):
                 f.write(json.dumps(["b", os.getpid()]) + "\n")
 
 
-def hammer(tag, n, seed, queries=True, compound_ok=True):
+def _one_op(rnd, probe, tag, queries, compound_ok):
+    r = rnd.random()
+    if queries and r < 0.2:
+        query(tag)
+    elif queries and compound_ok and r < 0.3:
+        compound(tag)
+    elif queries and r < 0.42:
+        bystander(tag)
+    else:
+        probe(tag, rnd.choice([0, 0, 1, 2]), rnd.choice([0, 0.0002, 0.001]))
+
+
+def announce_ready():
+    """Rendezvous through the run's directory: one file per process that has reached its
+    workload."""
+    open(os.path.join(os.environ["VF_C14_DIR"], "ready-%d" % os.getpid()), "w").close()
+
+
+def all_ready(expect):
+    return sum(1 for f in os.listdir(os.environ["VF_C14_DIR"]) if f.startswith("ready-")) >= expect
+
+
+def hammer(tag, n, seed, queries=True, compound_ok=True, expect=0):
+    """Phase 1: *n* operations right away (they race with the starts of the processes).
+    Then, when *expect* is given: keep going at a low rate until every process of the tree
+    has announced itself (a spawned grandchild takes a second to get there), and do *n*
+    more operations while the whole tree is alive -- otherwise the early processes would
+    be done long before the late ones begin and nothing could ever overlap."""
     rnd = random.Random(seed)
     probe = get_probe()
     for i in range(n):
-        r = rnd.random()
-        if queries and r < 0.2:
-            query(tag)
-        elif queries and compound_ok and r < 0.3:
-            compound(tag)
-        elif queries and r < 0.42:
-            bystander(tag)
-        else:
-            probe(tag, rnd.choice([0, 0, 1, 2]), rnd.choice([0, 0.0002, 0.001]))
+        _one_op(rnd, probe, tag, queries, compound_ok)
+        if rnd.random() < 0.3:
+            time.sleep(rnd.uniform(0, 0.001))
+    if not expect:
+        return
+    deadline = time.monotonic() + 12
+    while not all_ready(expect) and time.monotonic() < deadline:
+        probe(tag + "/wait", 0, 0)
+        time.sleep(rnd.uniform(0.002, 0.006))
+    for i in range(n):
+        _one_op(rnd, probe, tag + "/all", queries, compound_ok)
         if rnd.random() < 0.3:
             time.sleep(rnd.uniform(0, 0.001))
 
@@ -172,7 +201,8 @@ def child_main(cfg, tag, seed, level):
     # exist in the child.  That is the generic fork-with-threads hazard, not terminal
     # serialization: fork children therefore do not call the memoized query helpers.
     compound_ok = cfg["method"] != "fork"
-    ths = [threading.Thread(target=hammer, args=("%s.t%d" % (tag, i), cfg["ops"], seed * 31 + i, True, compound_ok)) for i in range(cfg["child_threads"])]
+    expect = cfg.get("expect_procs", 0)
+    ths = [threading.Thread(target=hammer, args=("%s.t%d" % (tag, i), cfg["ops"], seed * 31 + i, True, compound_ok, expect)) for i in range(cfg["child_threads"])]
     for t in ths:
         t.start()
     procs = []
@@ -182,7 +212,8 @@ def child_main(cfg, tag, seed, level):
             p = mp.Process(target=child_main, args=(cfg, "%s.g%d" % (tag, j), seed * 7 + j, level + 1))
             p.start()
             procs.append(p)
-    hammer(tag, cfg["ops"], seed, True, compound_ok)
+    announce_ready()
+    hammer(tag, cfg["ops"], seed, True, compound_ok, expect)
     for t in ths:
         t.join()
     for p in procs:
